@@ -7,7 +7,8 @@ documentation fixes (class "U" below):
   * trailing slashes on a pattern are ignored;
   * a pattern without '/' (and without RE:) is compared to the last path component;
   * a pattern with '/' is compared to the whole path from the root; a leading './'
-    only marks "root" (it contains a slash) and is otherwise dropped;
+    only marks "root" (it contains a slash) and is otherwise dropped; this holds whatever
+    the first component looks like ('*.d/x', '*/x', '?ib/*.o': kind "globdir");
   * '?' one character except '/', '*' zero or more characters except '/',
     a '**' component ('**/x', 'a/**/b') zero or more directories,
     '[abc]' / '[a-c]' one character of the group, '[!abc]' one character not in the group
@@ -114,7 +115,8 @@ def ref_match(pat, path):
 
 # ------------------------------------------------------------------ grammar
 
-DIRS = ["d1", "d2", "lib", "Src", "a b", "x.d", "é"]
+DIRS = ["d1", "d2", "lib", "Src", "a b", "x.d", "é", "My.app"]
+DOTDIRS = ["x.d", "conf.d", "My.app", "p.egg-info", "a.b.c", "k{2}.d"]   # directories that carry an "extension"
 STEMS = ["foo", "Foo", "bar", "a", "ab", "abc", "README", "readme", "x+y", "f(1)", "p$", "^q", "k{2}", "a|b", "#t#",
          "t~", ".hid", "ü1", "m-n", "u_v", "c,d", "e=f", "g@h", "i&j", "n%o", "x]"]
 EXTS = ["c", "o", "py", "pyc", "pyo", "so", "txt", "C", "tar.gz", "a", "swp"]
@@ -209,7 +211,9 @@ def gen_U(rng, names=None):
             parts = parts[-2:]  # deliberately not anchored at the root: must NOT match deeper paths
         pat = "/".join(_globify(rng, c, False) if rng.random() < 0.4 else c for c in parts)
         kind = "path"
-    elif r < 0.72:
+    elif r < 0.67:
+        pat, kind = gen_globdir(rng, parts), "globdir"
+    elif r < 0.74:
         keep = parts if rng.random() < 0.6 else parts[-1:]
         pat = "./" + "/".join(_globify(rng, c, False) if rng.random() < 0.3 else c for c in keep)
         kind = "rooted"
@@ -235,6 +239,47 @@ def gen_U(rng, names=None):
     if pat.startswith("!") or pat.startswith("#"):
         return gen_U(rng, names)
     return pat, kind
+
+
+def _glob_head(rng, comp):
+    """A glob for a directory component that keeps only its tail: '*.d', '*d', '?*.d', '*'."""
+    k = rng.random()
+    if "." in comp[1:] and k < 0.6:
+        return "*." + comp.rsplit(".", 1)[1]                 # looks like an extension pattern, but is one component of a path
+    if "." in comp[1:] and k < 0.7:
+        return "*." + _globify(rng, comp.rsplit(".", 1)[1], False)
+    if k < 0.8:
+        return "*" + comp[-rng.choice([1, 2, 3]):]
+    if k < 0.9:
+        return "?*" + comp[-2:] if len(comp) > 2 else "?" + comp[1:]
+    return "*"
+
+
+def gen_globdir(rng, parts):
+    """A pattern with a slash whose DIRECTORY components are globs ('*.d/x', '*.app/**/y', 'lib/*.d/*', '*/x').
+
+    It has a slash, so the documentation makes it a whole-path pattern whatever its first characters look like.
+    """
+    bn = parts[-1]
+    dirs = list(parts[:-1])
+    if not dirs or rng.random() < 0.5:
+        dirs = dirs[:rng.choice([0, 0, 1])] + [rng.choice(DOTDIRS)]
+    gi = rng.choice([0, 0, 0, len(dirs) - 1])                # which directory component becomes a glob (mostly the first)
+    out = []
+    for i, c in enumerate(dirs):
+        out.append(_glob_head(rng, c) if i == gi else c)
+    k = rng.random()
+    if k < 0.35:
+        last = bn
+    elif k < 0.6:
+        last = _globify(rng, bn, False)
+    elif k < 0.75:
+        last = "*"
+    elif k < 0.85:
+        last = "*." + (bn.rsplit(".", 1)[1] if "." in bn[1:] else rng.choice(EXTS))
+    else:
+        last = "**/" + bn
+    return "/".join(out + [last])
 
 
 def gen_RE(rng, parts):
